@@ -661,3 +661,177 @@ Proof.
   - cbn [of_segs major]. rewrite map_length. apply segs_length.
   - reflexivity.
 Qed.
+
+(* ------------------------------------------------------------------ arrays -> segments -> arrays *)
+(* the consecutive slices cut by a list of offsets *)
+Fixpoint slices {A} (p : list nat) (E : list A) : list (list A) :=
+  match p with
+  | a :: t => match t with [] => [] | b :: _ => firstn (b - a) (skipn a E) :: slices t E end
+  | [] => []
+  end.
+
+Lemma segs_as_slices {A} (p : list nat) (E : list A) : forall n, length p = S n ->
+  map (fun i => firstn (nth (S i) p 0 - nth i p 0) (skipn (nth i p 0) E)) (seq 0 n) = slices p E.
+Proof.
+  induction p as [|a t IH]; intros n H; [discriminate|]. destruct t as [|b t'].
+  - cbn [length] in H. assert (n = 0) by lia. subst. reflexivity.
+  - destruct n as [|n]; [cbn [length] in H; lia|]. cbn [seq map].
+    change (slices (a :: b :: t') E) with (firstn (b - a) (skipn a E) :: slices (b :: t') E). f_equal.
+    rewrite <- seq_shift, map_map. rewrite <- (IH n) by (cbn [length] in *; lia).
+    apply map_ext. intros i. reflexivity.
+Qed.
+
+Lemma firstn_add {A} x y : forall L : list A, firstn (x + y) L = firstn x L ++ firstn y (skipn x L).
+Proof.
+  induction x as [|x IH]; intros L; [reflexivity|]. destruct L as [|h L]; cbn [Nat.add firstn skipn app].
+  - rewrite firstn_nil. reflexivity.
+  - f_equal. apply IH.
+Qed.
+
+Lemma skipn_add {A} x y : forall L : list A, skipn x (skipn y L) = skipn (x + y) L.
+Proof.
+  induction y as [|y IH]; intros L; [rewrite Nat.add_0_r; reflexivity|]. destruct L as [|h L].
+  - rewrite !skipn_nil. reflexivity.
+  - rewrite Nat.add_succ_r. cbn [skipn]. apply IH.
+Qed.
+
+Lemma firstn_skipn_join {A} (E : list A) a b c : a <= b -> b <= c ->
+  firstn (b - a) (skipn a E) ++ firstn (c - b) (skipn b E) = firstn (c - a) (skipn a E).
+Proof.
+  intros Hab Hbc. replace (c - a) with ((b - a) + (c - b)) by lia. rewrite firstn_add. f_equal. f_equal.
+  rewrite skipn_add. f_equal. lia.
+Qed.
+
+Lemma monotone_head_le_last p : forall a, monotone (a :: p) -> a <= last (a :: p) 0.
+Proof.
+  induction p as [|b t IH]; intros a H; [simpl; lia|]. destruct H as [Hab Ht]. specialize (IH b Ht).
+  change (last (a :: b :: t) 0) with (last (b :: t) 0). lia.
+Qed.
+
+Lemma concat_slices {A} (E : list A) p : forall a, monotone (a :: p) ->
+  concat (slices (a :: p) E) = firstn (last (a :: p) 0 - a) (skipn a E).
+Proof.
+  induction p as [|b t IH]; intros a H.
+  - cbn [slices concat last]. rewrite Nat.sub_diag. reflexivity.
+  - destruct H as [Hab Ht].
+    change (slices (a :: b :: t) E) with (firstn (b - a) (skipn a E) :: slices (b :: t) E).
+    cbn [concat]. rewrite (IH b Ht).
+    change (last (a :: b :: t) 0) with (last (b :: t) 0).
+    apply firstn_skipn_join; [exact Hab|apply monotone_head_le_last; exact Ht].
+Qed.
+
+Lemma segs_slices r : length (indptr r) = S (major r) -> segs r = slices (indptr r) (entries r).
+Proof. intros H. rewrite <- (segs_as_slices (indptr r) (entries r) (major r) H). reflexivity. Qed.
+
+(* the segments of a well-formed representation tile its arrays *)
+Theorem concat_segs r : wf_cs r -> concat (segs r) = entries r.
+Proof.
+  intros (H1 & H2 & H3 & H4 & H5 & _). rewrite (segs_slices r H1).
+  destruct (indptr r) as [|a p] eqn:E; [discriminate|]. cbn [nth] in H2. subst a.
+  rewrite (concat_slices (entries r) p 0 H3). rewrite H4, Nat.sub_0_r. cbn [skipn].
+  apply firstn_all2. unfold entries.
+  etransitivity; [apply Nat.eq_le_incl; apply combine_length|]. lia.
+Qed.
+
+Lemma offsets_slices (E : list entry) p : forall a, monotone (a :: p) -> last (a :: p) 0 <= length E ->
+  offsets a (slices (a :: p) E) = a :: p.
+Proof.
+  induction p as [|b t IH]; intros a H L; [reflexivity|]. destruct H as [Hab Ht].
+  change (slices (a :: b :: t) E) with (firstn (b - a) (skipn a E) :: slices (b :: t) E).
+  cbn [offsets]. f_equal.
+  change (last (a :: b :: t) 0) with (last (b :: t) 0) in L.
+  pose proof (monotone_head_le_last t b Ht) as Hb.
+  rewrite firstn_length_le by (rewrite skipn_length; lia).
+  replace (a + (b - a)) with b by lia. apply IH; assumption.
+Qed.
+
+Theorem of_segs_segs r : wf_cs r -> of_segs (minor r) (segs r) = r.
+Proof.
+  intros W. pose proof (concat_segs r W) as C. destruct W as (H1 & H2 & H3 & H4 & H5 & _).
+  unfold of_segs. rewrite C, segs_length. unfold entries.
+  assert (O : offsets 0 (segs r) = indptr r).
+  { rewrite (segs_slices r H1).
+    destruct (indptr r) as [|a p] eqn:E; [discriminate|]. cbn [nth] in H2. subst a.
+    apply offsets_slices; [exact H3|]. rewrite H4. unfold entries.
+    etransitivity; [|apply Nat.eq_le_incl; symmetry; apply combine_length]. lia. }
+  rewrite O.
+  assert (F : map fst (combine (indices r) (data r)) = indices r /\ map snd (combine (indices r) (data r)) = data r).
+  { revert H5. generalize (indices r) (data r). induction l as [|x l IH]; intros [|y l0] H; cbn [length] in H; try lia; [split; reflexivity|].
+    destruct (IH l0 ltac:(lia)) as [A B]. cbn [combine map fst snd]. rewrite A, B. split; reflexivity. }
+  destruct F as [F1 F2]. rewrite F1, F2. destruct r; reflexivity.
+Qed.
+
+(* a representation without stored zeros stores exactly the non-zero cells (array level) *)
+Theorem stored_count r : wf_cs r -> no_stored_zero r -> length (data r) = count_nonzero (dense_of r).
+Proof.
+  intros W Z. pose proof (wf_segs r W) as F. rewrite <- (of_segs_segs r W) at 1. rewrite data_of_segs_length.
+  apply stored_count_segs; [exact F|]. apply Forall_forall. intros s Hs. apply Forall_forall. intros e He.
+  unfold no_stored_zero in Z. rewrite Forall_forall in Z. apply Z. eapply seg_values; eassumption.
+Qed.
+
+(* ------------------------------------------------------------------ dense -> CSR *)
+Lemma find_combine_seq row : forall start j,
+  find_idx j (combine (seq start (length row)) row)
+  = if Nat.leb start j && Nat.ltb j (start + length row) then Some (nth (j - start) row 0%Z) else None.
+Proof.
+  induction row as [|v t IH]; intros start j.
+  - cbn [length seq combine find_idx]. rewrite Nat.add_0_r.
+    destruct (Nat.leb_spec start j), (Nat.ltb_spec j start); try reflexivity; lia.
+  - cbn [length seq combine find_idx]. destruct (Nat.eqb_spec start j) as [->|Hne].
+    + rewrite Nat.leb_refl. replace (Nat.ltb j (j + S (length t))) with true by (symmetry; apply Nat.ltb_lt; lia).
+      rewrite Nat.sub_diag. reflexivity.
+    + rewrite IH. destruct (Nat.leb_spec (S start) j), (Nat.leb_spec start j), (Nat.ltb_spec j (S start + length t)),
+        (Nat.ltb_spec j (start + S (length t))); cbn [andb]; try reflexivity; try lia.
+      replace (j - start) with (S (j - S start)) by lia. reflexivity.
+Qed.
+
+Lemma seq_fst_combine (row : list Z) start : map fst (combine (seq start (length row)) row) = seq start (length row).
+Proof. revert start. induction row as [|v t IH]; intros start; [reflexivity|]. cbn [length seq combine map fst]. rewrite IH. reflexivity. Qed.
+
+Lemma row_seg_of_row row : row_of_seg (length row) (seg_of_row row) = row.
+Proof.
+  unfold row_of_seg, seg_of_row.
+  rewrite (map_ext _ (fun j => lookup j (combine (seq 0 (length row)) row)))
+    by (intros j; apply lookup_elim_seg; rewrite seq_fst_combine; apply seq_NoDup).
+  transitivity (map (fun j => nth j row 0%Z) (seq 0 (length row))).
+  - apply map_ext_in. intros j Hj. apply in_seq in Hj. unfold lookup. rewrite find_combine_seq.
+    replace (Nat.leb 0 j) with true by reflexivity. replace (Nat.ltb j (0 + length row)) with true by (symmetry; apply Nat.ltb_lt; lia).
+    cbn [andb]. rewrite Nat.sub_0_r. reflexivity.
+  - rewrite (map_nth_seq (fun x => x) row 0%Z). apply map_id.
+Qed.
+
+Lemma seg_of_row_ok row : seg_ok (length row) (seg_of_row row) /\ increasing (map fst (seg_of_row row))
+                          /\ Forall (fun e => snd e <> 0%Z) (seg_of_row row).
+Proof.
+  unfold seg_of_row. split; [|split].
+  - apply elim_seg_ok. split; [rewrite seq_fst_combine; apply seq_NoDup|].
+    apply Forall_forall. intros e He. assert (In (fst e) (map fst (combine (seq 0 (length row)) row))) by (apply in_map; exact He).
+    rewrite seq_fst_combine in H. apply in_seq in H. lia.
+  - assert (G : forall l : segment, increasing (map fst l) -> increasing (map fst (elim_seg l))).
+    { induction l as [|[k v] t IH]; intros H; [exact I|]. cbn [elim_seg filter snd]. fold (elim_seg t).
+      pose proof (IH (increasing_tail _ _ H)) as It. destruct (nzb v); [|exact It]. cbn [map fst]. apply increasing_cons; [|exact It].
+      intros y Hy. apply elim_seg_fst_incl in Hy. pose proof (increasing_lt_all _ _ H) as F. rewrite Forall_forall in F. apply F. exact Hy. }
+    apply G. rewrite seq_fst_combine. generalize 0. induction (length row) as [|n IH]; intros s; [exact I|].
+    cbn [seq]. apply increasing_cons; [|apply IH]. intros y Hy. apply in_seq in Hy. lia.
+  - apply Forall_forall. intros e He. apply filter_In in He. destruct He as [_ He]. unfold nzb in He.
+    apply negb_true_iff in He. apply Z.eqb_neq in He. exact He.
+Qed.
+
+Theorem of_dense_ok c m : rect c m ->
+  wf_cs (of_dense c m) /\ sorted_cs (of_dense c m) /\ no_stored_zero (of_dense c m)
+  /\ dense_of (of_dense c m) = m /\ major (of_dense c m) = length m /\ minor (of_dense c m) = c.
+Proof.
+  intros R. unfold of_dense. unfold rect in R. rewrite Forall_forall in R.
+  split; [|split; [|split; [|split; [|split]]]].
+  - apply wf_of_segs. apply Forall_forall. intros s Hs. apply in_map_iff in Hs. destruct Hs as [row [<- Hr]].
+    rewrite <- (R row Hr). apply seg_of_row_ok.
+  - unfold sorted_cs. rewrite segs_of_segs. apply Forall_forall. intros s Hs. apply in_map_iff in Hs.
+    destruct Hs as [row [<- Hr]]. apply seg_of_row_ok.
+  - unfold no_stored_zero. cbn [of_segs data]. apply Forall_forall. intros v Hv. apply in_map_iff in Hv.
+    destruct Hv as [e [<- He]]. apply in_concat in He. destruct He as [s [Hs He]]. apply in_map_iff in Hs.
+    destruct Hs as [row [<- Hr]]. destruct (seg_of_row_ok row) as (_ & _ & Z). rewrite Forall_forall in Z. apply Z. exact He.
+  - rewrite dense_of_of_segs. unfold dense_of_segs. rewrite map_map. rewrite <- (map_id m) at 2. apply map_ext_in.
+    intros row Hr. rewrite <- (R row Hr). apply row_seg_of_row.
+  - cbn [of_segs major]. apply map_length.
+  - reflexivity.
+Qed.
